@@ -138,12 +138,23 @@ Definition glob_escape (p : str) : str :=
 
 (* ---------- what the code does with a task / cycle pattern ---------- *)
 Definition has_star (p : str) : bool := mem Z.eqb c_star p.
-(* str.replace('*', '%') *)
+(* pre-fix: str.replace('*', '%') *)
 Definition translate (p : str) : str := map (fun c => if c =? c_star then c_pct else c) p.
 Definition str_eqb (a b : str) : bool := list_eqb Z.eqb a b.
 
-(* `if task:` — None and '' add no WHERE clause *)
+(* `if task:` — None and '' add no WHERE clause.
+   Current code (after fix 5844984): a pattern with '*' is run as
+   `name GLOB ?` on _glob_escape(pattern); otherwise `name==?`. *)
 Definition code_match (pat : option str) (s : str) : bool :=
+  match pat with
+  | None => true
+  | Some [] => true
+  | Some p => if has_star p then sqlite_glob (glob_escape p) s else str_eqb p s
+  end.
+
+(* PRE-FIX code (before 5844984), kept only to document the defect that was fixed:
+   '*' -> '%' and `name like ?`. *)
+Definition legacy_code_match (pat : option str) (s : str) : bool :=
   match pat with
   | None => true
   | Some [] => true
@@ -236,6 +247,7 @@ Definition run_query_with (m : option str -> str -> bool) (q : query) (rows : li
   if polling_ok q then Some (select_from (row_ok m q) 0 rows) else None.
 
 Definition code_query := run_query_with code_match.
+Definition legacy_code_query := run_query_with legacy_code_match.   (* pre-fix *)
 Definition spec_query := run_query_with spec_match.
 
 (* ---------- correspondence interface ---------- *)
